@@ -18,6 +18,7 @@ type FuncReport struct {
 	Props       []string
 	Obls        []*Obligation
 	Assumptions []*smt.Term
+	GoalAssume  map[int]bool
 	Observe     []Observable
 	Err         string // non-empty: function is out of reach (unsupported construct)
 	Inlined     []string
@@ -112,6 +113,7 @@ func (e *Engine) Verify(fc *FnContract) (rep *FuncReport) {
 	}
 	rep.Obls = e.Obls
 	rep.Assumptions = e.Assumptions
+	rep.GoalAssume = e.GoalAssume
 	for k := range e.Inlined {
 		rep.Inlined = append(rep.Inlined, k)
 	}
